@@ -14,7 +14,7 @@ from vlib import build as B, p21_gen as G, p21_gen_rw as W, p21_rw_run as R
 HERE = os.path.dirname(os.path.abspath(__file__))
 VERIF = os.path.dirname(HERE)
 EXTRACTORS = ["p21rw", "attrnull", "stepfile", "enums"]
-CLASSES = ["top", "aftval", "agg", "sel", "cx"]
+CLASSES = ["top", "aftval", "agg", "agg2", "sel", "cx"]
 NAMED_COMMENTS = {"plain": "/* c */", "empty": "/**/", "stars": "/* a * b / c */", "semicolon": "/*#9=X(1);*/",
                   "multiline": "/*\n multi\n line */", "delims": "/* ,) */", "quote": "/* it's */", "hash": "/* #3 */"}
 
@@ -39,8 +39,8 @@ def widen_strings(rng, schema, pop):
 
 class Layout:
     """a reproducible layout: separators per gap class"""
-    def __init__(self, seed, ws=True, comment_classes=(), comments=None):
-        self.seed, self.ws, self.cc, self.comments = seed, ws, tuple(comment_classes), comments
+    def __init__(self, seed, ws=True, comment_classes=(), comments=None, every_gap=False):
+        self.seed, self.ws, self.cc, self.comments, self.every_gap = seed, ws, tuple(comment_classes), comments, every_gap
 
     def render(self, schema_name, pop):
         if not self.ws and not self.cc:
@@ -49,16 +49,19 @@ class Layout:
         names = self.comments or list(NAMED_COMMENTS)
         old = W.COMMENTS
         W.COMMENTS = [NAMED_COMMENTS[n] for n in names]
-        old_ws = W.WS
+        old_ws, old_p = W.WS, W.P_COMMENT
         if not self.ws:
             W.WS = [""]
+        if self.every_gap:
+            W.P_COMMENT = 1.0
         try:
             return W.render_file(schema_name, pop, rng, self.cc)
         finally:
-            W.COMMENTS, W.WS = old, old_ws
+            W.COMMENTS, W.WS, W.P_COMMENT = old, old_ws, old_p
 
     def describe(self):
-        return {"seed": self.seed, "ws": self.ws, "comment_classes": list(self.cc), "comments": self.comments}
+        return {"seed": self.seed, "ws": self.ws, "comment_classes": list(self.cc), "comments": self.comments,
+                "every_gap": self.every_gap}
 
 
 class Case:
@@ -184,11 +187,11 @@ def minimise(ctx, b, case, msg):
     if lay.ws:
         trials.append(("layout:whitespace", Layout(lay.seed, ws=True)))
     for c in lay.cc:
-        trials.append((f"layout:comment@{c}", Layout(lay.seed, ws=False, comment_classes=(c,), comments=["plain"])))
+        trials.append((f"layout:comment@{c}", Layout(lay.seed, ws=False, comment_classes=(c,), comments=["plain"], every_gap=True)))
     for c in lay.cc:
         for nm in NAMED_COMMENTS:
             if nm != "plain":
-                trials.append((f"layout:comment-{nm}@{c}", Layout(lay.seed, ws=False, comment_classes=(c,), comments=[nm])))
+                trials.append((f"layout:comment-{nm}@{c}", Layout(lay.seed, ws=False, comment_classes=(c,), comments=[nm], every_gap=True)))
     for key, l2 in trials:
         text, r2 = real_one(ctx, b, lib, case.pop, l2)
         m2 = oracle(case.pop, r2)
@@ -257,12 +260,17 @@ def evaluate(ctx, b, lib, cases, model_exe):
             if mr.stop and unmodelled_ok(mr.stop):
                 ctx.hist("model", "unmodelled: " + mr.stop)
                 continue
+            if msg:
+                # the implementation already violates the property on this input (reported above); what the model does
+                # with the damaged instances is recorded, a broken tie is model != implementation on a *satisfying* input
+                ctx.hist("model", "differs on a violating input")
+                continue
             n_corr += 1
             if not any(n.startswith("correspondence") for n, _ in ctx.broken):
                 ctx.broken.append(("correspondence P21.Reader/P21.Writer vs the reader and writer of the schema library",
                                    f"{d}; layout {c.layout.describe()}"
                                    + (f"; (the implementation also fails the oracle here: {msg})" if msg else "")
-                                   + f"; file:\n{c.text[-1500:]}"))
+                                   + f"; file:\n{c.text[-8000:]}"))
         else:
             ctx.hist("model", "agrees" if not msg else "agrees (severity, counters, states) on a violating input")
     return n_viol, n_corr
@@ -291,7 +299,7 @@ def schemas_for(ctx, n):
 
 def allowed_comment_classes(cfg):
     """gap classes in which the property holds for the source as it is now (comments elsewhere are covered by findings)"""
-    return ["top", "aftval", "agg", "sel", "cx"]
+    return list(CLASSES)
 
 
 def run(ctx):
